@@ -125,8 +125,10 @@ Definition force_threads (explicit : bool) (b : cbk) (prefer require : Z) : bool
 Definition force_processes (explicit : bool) (b : cbk) (prefer : Z) : bool :=
   negb explicit && (prefer =? 2) && uses_threads (ck b).
 
-(* _get_active_backend(prefer, require, verbose): the backend and the configuration handed back *)
-Definition active_backend (a_prefer a_require : option Z) (c : config) : result (cbk * config) :=
+(* _get_active_backend(prefer, require, verbose): the backend and the configuration handed back.
+   dk = the class registered as DEFAULT_BACKEND (loky unless register_parallel_backend(..., make_default=True)
+   or multiprocessing is unavailable). *)
+Definition active_backend_dk (dk : ckind) (a_prefer a_require : option Z) (c : config) : result (cbk * config) :=
   let backend := gcp None (option_map Some (c_backend c)) None in
   let prefer := gcp a_prefer (c_prefer c) d_prefer in
   let require := gcp a_require (c_require c) d_require in
@@ -135,12 +137,15 @@ Definition active_backend (a_prefer a_require : option Z) (c : config) : result 
   else if (prefer =? 2) && (require =? 1) then Raise ValueError
   else
     let explicit := match backend with Some _ => true | None => false end in
-    let b := match backend with Some b => b | None => default_cbk end in
+    let b := match backend with Some b => b | None => {| ck := dk; clevel := 0 |} end in
     if force_threads explicit b prefer require
     then Ok ({| ck := BThr; clevel := clevel b |}, set_njobs c (Some (Some 1)))   (* thread_config["n_jobs"] = 1 *)
     else if force_processes explicit b prefer
     then Ok ({| ck := BLoky; clevel := clevel b |}, c)
     else Ok (b, c).
+
+Definition active_backend (a_prefer a_require : option Z) (c : config) : result (cbk * config) :=
+  active_backend_dk BLoky a_prefer a_require c.
 
 (* get_active_backend(prefer, require) -> (backend, n_jobs) *)
 Definition get_active (a_prefer a_require : option Z) (c : config) : result (cbk * option Z) :=
@@ -175,10 +180,12 @@ Record pres := {
 
 Definition default_n_jobs (k : ckind) : Z := 1.   (* ParallelBackendBase.default_n_jobs, never overridden *)
 
-(* Parallel.__init__ (return_as='list', batch_size='auto', no backend_kwargs) *)
-Definition parallel_init (a : pargs) (c : config) : result pres :=
+(* Parallel.__init__ (return_as='list', batch_size='auto', no backend_kwargs), given the function that plays
+   _get_active_backend (the hand model, or the one regenerated from the source: Proofs/Config.v) *)
+Definition parallel_init_with (ab : option Z -> option Z -> config -> result (cbk * config))
+                              (a : pargs) (c : config) : result pres :=
   let njobs_arg : option Z := match a_njobs a with Some (Some n) => Some n | _ => None end in
-  bind (active_backend (a_prefer a) (a_require a) c) (fun '(ab, ctx) =>
+  bind (ab (a_prefer a) (a_require a) c) (fun '(ab, ctx) =>
   let level := clevel ab in
   let verbose := gcp (a_verbose a) (c_verbose ctx) d_verbose in
   let maxnb := gcp (a_maxnb a) (c_maxnb ctx) d_maxnb in
@@ -200,6 +207,17 @@ Definition parallel_init (a : pargs) (c : config) : result pres :=
   else Ok {| r_kind := ck backend; r_level := clevel backend; r_njobs := njobs; r_verbose := verbose;
              r_kw_maxnb := kw_maxnb; r_kw_temp := temp; r_kw_mmap := mmap; r_kw_prefer := prefer;
              r_kw_require := require; r_kw_verbose := Z.max 0 (verbose - 50) |}))).
+
+Definition parallel_init (a : pargs) (c : config) : result pres := parallel_init_with active_backend a c.
+Definition parallel_init_dk (dk : ckind) (a : pargs) (c : config) : result pres :=
+  parallel_init_with (active_backend_dk dk) a c.
+
+(* the configuration inside the blocks [specs] (outermost first), started from the default one *)
+Fixpoint cfg_of_specs (specs : list (mgr * cspec)) (c : config) : result config :=
+  match specs with
+  | [] => Ok c
+  | (m, s) :: rest => bind (enter (norm_spec m s) c) (cfg_of_specs rest)
+  end.
 
 (* ------------------------------------------------------------------ programs and threads *)
 Inductive obsq :=
